@@ -70,6 +70,10 @@ def routeFuel : Nat := 4
 /-- receivers of the successive MPI sends that carry a message from `s` to `d` -/
 def route (sch : Scheme) (p s d : Nat) : List Nat := routeFrom sch p d routeFuel s
 
+/-- number of MPI sends a message addressed to `d` still needs when it sits on rank `x`
+(0 once it is on its destination; used as the progress measure of C01's drain bound) -/
+def hopsLeft (sch : Scheme) (p x d : Nat) : Nat := if x = d then 0 else (route sch p x d).length
+
 /-- the (sender, receiver) pairs of those sends -/
 def hops (s : Nat) (r : List Nat) : List (Nat × Nat) := List.zip (s :: r) r
 
